@@ -78,8 +78,17 @@ Qed.
 
 (* m1: the run that skips more; m2: the run that executes the dead stores.  Runs of m2
    ending in a tolerated failure (fuel, variable-missing sites) are not compared. *)
-Definition relM {A} (R : A -> A -> Prop) (m1 m2 : M A) : Prop :=
-  tolr (snd m2) \/
+(* X = true: the four panic sites the resolver rules out are not compared either (round 4) *)
+Definition tolX {A} (X : bool) (r : res A) : Prop := tolr r \/ (X = true /\ xs r).
+
+Lemma tolX_bind {A B} X (m : M A) (f : A -> M B) : tolX X (snd m) -> tolX X (snd (bindM m f)).
+Proof.
+  intros [T|[HX T]]; [left; apply tolr_bind; exact T|right; split; [exact HX|]].
+  destruct m as [o r]. destruct r as [a|e|p| |]; cbn in T; try contradiction. cbn. exact T.
+Qed.
+
+Definition relMX {A} (X : bool) (R : A -> A -> Prop) (m1 m2 : M A) : Prop :=
+  tolX X (snd m2) \/
   (fst m1 = fst m2 /\
    match snd m1, snd m2 with
    | Ok a1, Ok a2 => R a1 a2
@@ -89,13 +98,17 @@ Definition relM {A} (R : A -> A -> Prop) (m1 m2 : M A) : Prop :=
    | _, _ => False
    end).
 
+Section RelM.
+Variable X : bool.
+Notation relM := (relMX X).
+
 Lemma rel_bind {A B} (RA : A -> A -> Prop) (RB : B -> B -> Prop) (m1 m2 : M A) (f1 f2 : A -> M B) :
   relM RA m1 m2 ->
   (forall a1 a2, RA a1 a2 -> relM RB (f1 a1) (f2 a2)) ->
   relM RB (bindM m1 f1) (bindM m2 f2).
 Proof.
   intros [Ht | [Eo Hr]] Hf.
-  - left. apply tolr_bind. exact Ht.
+  - left. apply tolX_bind. exact Ht.
   - destruct m1 as [o1 r1], m2 as [o2 r2]. cbn [fst snd] in *. subst o2.
     destruct r1 as [a1|e1|p1| |], r2 as [a2|e2|p2| |]; try contradiction; cbn [bindM].
     + specialize (Hf a1 a2 Hr). destruct (f1 a1) as [o1' r1'], (f2 a2) as [o2' r2'].
@@ -118,12 +131,12 @@ Proof. right. split; reflexivity. Qed.
 Lemma rel_unsupp {A} (R : A -> A -> Prop) : relM R UnsuppM UnsuppM.
 Proof. right. split; [reflexivity|exact I]. Qed.
 Lemma rel_fuel {A} (R : A -> A -> Prop) (m1 : M A) : relM R m1 FuelM.
-Proof. left. exact I. Qed.
-Lemma rel_tol {A} (R : A -> A -> Prop) (m1 m2 : M A) : tolr (snd m2) -> relM R m1 m2.
+Proof. left. left. exact I. Qed.
+Lemma rel_tol {A} (R : A -> A -> Prop) (m1 m2 : M A) : tolX X (snd m2) -> relM R m1 m2.
 Proof. intros H. left. exact H. Qed.
 
 Lemma rel_lift {A} (r : res A) : relM eq (lift r) (lift r).
-Proof. unfold lift. destruct r; [right|right|right|left|right]; cbn; auto. Qed.
+Proof. unfold lift. destruct r; [right|right|right|left; left|right]; cbn; auto. Qed.
 
 Lemma rel_weaken {A} (R R' : A -> A -> Prop) (m1 m2 : M A) :
   (forall a b, R a b -> R' a b) -> relM R m1 m2 -> relM R' m1 m2.
@@ -131,6 +144,7 @@ Proof.
   intros W [H|[E H]]; [left; exact H|right]. split; [exact E|].
   destruct (snd m1), (snd m2); auto.
 Qed.
+End RelM.
 
 (* ------------------------------------------------------------------------------------ *)
 (* C. states that agree on the live slots                                                 *)
@@ -148,9 +162,6 @@ Inductive env_agree : list lset -> list (list slot) -> list (list slot) -> Prop 
 | ea_cons L Ls sc1 sc2 e1 e2 :
     scope_agree L sc1 sc2 -> env_agree Ls e1 e2 -> env_agree (L :: Ls) (sc1 :: e1) (sc2 :: e2).
 
-Definition ids (sc : list slot) : list (option Z) := map s_id sc.
-Definition eshape (e : list (list slot)) : list (list (option Z)) := map ids e.
-Definition dshape (Ds : list lset) : list (list (option Z)) := map (map Some) Ds.
 
 Lemma slot_agree_refl L a : slot_agree L a a.
 Proof. split; reflexivity. Qed.
@@ -514,6 +525,7 @@ Definition fd_ok (fd : fdef) : Prop :=
   exists f R Lb,
     f_id fd = Some f /\ rt_get (d_rt c) f = Some R /\
     nodupb (param_ids (f_lstart fd) (f_params fd) 0 []) = true /\
+    (d_calls c = true -> pfd_ok (pb_of c) (d_pt c) fd) /\
     tr_stmts c {| f_R := R; f_brk := []; f_next := [] |}
              [[]; param_ids (f_lstart fd) (f_params fd) 0 []] (f_body fd) [] = Some Lb.
 
@@ -583,6 +595,7 @@ End Inv.
 Section Sim.
 Variable c : dctx.
 Variable eps : f64.
+Notation relM := (relMX (d_calls c)).
 
 Definition Lfl (fc : fctx) (La : lset) (fl : flow) : lset :=
   match fl with FNormal => La | FReturn _ => [] | FBreak => f_brk fc | FNext => f_next fc end.
@@ -865,7 +878,7 @@ Proof.
   pose proof Hi as (Hf & Hfo & _ & _). rewrite Hf. rewrite Hf in Hfo.
   destruct (lookup_fn (Some t) fname (fns s2)) as [fd|] eqn:E; [|leaf].
   destruct (lookup_fn_In _ _ _ _ E) as [sc [Hsc [Hfd Hm]]].
-  destruct (Hfo sc fd Hsc Hfd) as (f & R' & Lb & Eid & ER' & Hnd & Htr).
+  destruct (Hfo sc fd Hsc Hfd) as (f & R' & Lb & Eid & ER' & Hnd & _ & Htr).
   unfold fdef_matches in Hm. apply opt_eqb_some in Hm. rewrite Eid in Hm. inversion Hm; subst f.
   rewrite ER in ER'. inversion ER'; subst R'. clear ER' Hm.
   rbind evals_sim.
@@ -978,7 +991,7 @@ Proof.
     assert (E : Lb = La).
     { destruct (in_plan_fn (d_pa c) fid); [inversion Ht; reflexivity|].
       destruct fid; [|discriminate]. destruct (rt_get (d_rt c) z); [|discriminate].
-      destruct (nodupb _); [|discriminate].
+      match type of Ht with (if ?b then _ else _) = _ => destruct b end; [|discriminate].
       destruct (tr_stmts c _ _ body []); [inversion Ht; reflexivity|discriminate]. }
     subst Lb. leaf.
   - (* SMake *)
@@ -1141,7 +1154,7 @@ Lemma tr_stmts_cons fc Ds t r La :
   | Some Lm =>
       if in_plan_stmt (d_pa c) (stmt_sid t) then
         if in_acc c (stmt_sid t) then
-          if pruned_store_ok Ds Lm t then Some Lm else None
+          if pruned_store_ok c Ds Lm t then Some Lm else None
         else if is_fun t then tr_stmt c fc Ds t Lm
         else Some Lm
       else tr_stmt c fc Ds t Lm
@@ -1161,9 +1174,13 @@ Proof.
   destruct t; try (intros; exact I). cbn [tr_stmt sfun_ok]. fold (tr_stmts c).
   destruct (in_plan_fn (d_pa c) fid); [left; reflexivity|].
   destruct fid as [f|]; [|discriminate]. destruct (rt_get (d_rt c) f) as [R|] eqn:ER; [|discriminate].
-  destruct (nodupb (param_ids lstart ps 0 [])) eqn:En; [|discriminate].
+  match goal with |- (if ?b then _ else _) = _ -> _ => destruct b eqn:En end; [|discriminate].
+  apply andb_prop in En. destruct En as [En Epf].
   destruct (tr_stmts c _ _ body []) as [Lx|] eqn:Et; [|discriminate].
-  intros _. right. exists f, R, Lx. cbn [f_id f_lstart f_params f_body]. auto.
+  intros _. right. exists f, R, Lx. cbn [f_id f_lstart f_params f_body].
+  refine (conj eq_refl (conj ER (conj En (conj _ Et)))).
+  intros Hc f' Ef Hm. rewrite Hc in Epf. cbn [f_id] in Ef. inversion Ef; subst f'.
+  cbn [f_lstart f_params f_body]. unfold pf_fun in Epf. rewrite Hm in Epf. exact Epf.
 Qed.
 
 Lemma tr_stmts_funs fc ts : forall Ds La Lb,
@@ -1213,8 +1230,8 @@ Hypothesis Hex : forall ax fc Ds t La Lb s1 s2,
   tr_stmt c fc Ds t La = Some Lb -> inv c ax Lb Ds s1 s2 ->
   relM (post ax fc (decl1 Ds t) La) (ex1 t s1) (ex2 t s2).
 Hypothesis Hpr : forall ax L Ds t s1 s2,
-  ds_wf Ds -> pruned_store_ok Ds L t = true -> inv c ax L Ds s1 s2 ->
-  tolr (snd (ex2 t s2)) \/
+  ds_wf Ds -> pruned_store_ok c Ds L t = true -> inv c ax L Ds s1 s2 ->
+  tolX (d_calls c) (snd (ex2 t s2)) \/
   exists s2', ex2 t s2 = ([], Ok (FNormal, s2')) /\ inv c ax L Ds s1 s2'.
 
 Lemma decl1_wf fc Ds t La Lb : tr_stmt c fc Ds t La = Some Lb -> ds_wf Ds -> ds_wf (decl1 Ds t).
@@ -1243,9 +1260,9 @@ Proof.
     destruct (in_plan_stmt (d_pa c) (stmt_sid t)) eqn:Ep; cbn [andb].
     + destruct (in_acc c (stmt_sid t)) eqn:Ea; cbn [negb].
       * (* a dead store: skipped on the left, executed on the right *)
-        destruct (pruned_store_ok Ds Lm t) eqn:Eok; [|discriminate]. inversion Ht; subst Lb.
+        destruct (pruned_store_ok c Ds Lm t) eqn:Eok; [|discriminate]. inversion Ht; subst Lb.
         destruct (Hpr ax Lm Ds t s1 s2 Hwf Eok Hi) as [T|[s2' [E Hi']]].
-        -- apply rel_tol. apply tolr_bind. exact T.
+        -- apply rel_tol. apply tolX_bind. exact T.
         -- rewrite E, bindM_ret_nil. eapply IH; eauto.
       * (* skipped by both *)
         assert (E : Lb = Lm).
@@ -1253,7 +1270,7 @@ Proof.
           destruct t; cbn in Ef; try discriminate. cbn [tr_stmt] in Ht.
           destruct (in_plan_fn (d_pa c) fid); [inversion Ht; reflexivity|].
           destruct fid; [|discriminate]. destruct (rt_get (d_rt c) z); [|discriminate].
-          destruct (nodupb _); [|discriminate].
+          match type of Ht with (if ?b then _ else _) = _ => destruct b end; [|discriminate].
           match type of Ht with match ?X with _ => _ end = _ => destruct X end; [inversion Ht; reflexivity|discriminate]. }
         subst Lb. eapply IH; eauto.
     + (* executed by both *)
@@ -1261,17 +1278,17 @@ Proof.
       * eapply Hex; eauto.
       * intros [fl1 s1'] [fl2 s2'] [Efl Hp]. cbn [fst snd] in Efl, Hp. subst fl2.
         destruct fl1; cbn [Lfl] in Hp.
-        -- rewrite <- (decl1_tl Ds t). eapply (IH ax fc (decl1 Ds t) La Lm); eauto.
+        -- replace (tl Ds) with (tl (decl1 Ds t)) by apply decl1_tl. eapply (IH ax fc (decl1 Ds t) La Lm); eauto.
            ++ eapply decl1_wf; eauto.
            ++ intros E. apply (f_equal (@length lset)) in E. rewrite decl1_length in E.
               destruct Ds; [contradiction|discriminate].
-        -- rewrite <- (decl1_tl Ds t). destruct (decl1 Ds t) as [|D' r'] eqn:Ed.
+        -- replace (tl Ds) with (tl (decl1 Ds t)) by apply decl1_tl. destruct (decl1 Ds t) as [|D' r'] eqn:Ed.
            { exfalso. apply (f_equal (@length lset)) in Ed. rewrite decl1_length in Ed. destruct Ds; [contradiction|discriminate]. }
            apply rel_ret. unfold post. cbn [fst snd Lfl tl]. split; [reflexivity|]. eapply inv_pop; eauto.
-        -- rewrite <- (decl1_tl Ds t). destruct (decl1 Ds t) as [|D' r'] eqn:Ed.
+        -- replace (tl Ds) with (tl (decl1 Ds t)) by apply decl1_tl. destruct (decl1 Ds t) as [|D' r'] eqn:Ed.
            { exfalso. apply (f_equal (@length lset)) in Ed. rewrite decl1_length in Ed. destruct Ds; [contradiction|discriminate]. }
            apply rel_ret. unfold post. cbn [fst snd Lfl tl]. split; [reflexivity|]. eapply inv_pop; eauto.
-        -- rewrite <- (decl1_tl Ds t). destruct (decl1 Ds t) as [|D' r'] eqn:Ed.
+        -- replace (tl Ds) with (tl (decl1 Ds t)) by apply decl1_tl. destruct (decl1 Ds t) as [|D' r'] eqn:Ed.
            { exfalso. apply (f_equal (@length lset)) in Ed. rewrite decl1_length in Ed. destruct Ds; [contradiction|discriminate]. }
            apply rel_ret. unfold post. cbn [fst snd Lfl tl]. split; [reflexivity|]. eapply inv_pop; eauto.
 Qed.
@@ -1298,20 +1315,41 @@ End Block.
 (* ------------------------------------------------------------------------------------ *)
 (* H. the skipped store, executed by the other run                                        *)
 
-Lemma pruned_exec P n ax L Ds t s1 s2 :
-  ds_wf Ds -> pruned_store_ok Ds L t = true -> inv c ax L Ds s1 s2 ->
-  tolr (snd (exec P eps n t s2)) \/
-  exists s2', exec P eps n t s2 = ([], Ok (FNormal, s2')) /\ inv c ax L Ds s1 s2'.
+Lemma fns_ok_pure fs : d_calls c = true -> fns_ok c fs -> pfns_ok (pb_of c) (d_pt c) fs.
 Proof.
-  intros Hwf Hp Hi. destruct n as [|n]; [left; exact I|]. rewrite exec_S.
+  intros Hc H sc fd Hs Hf. destruct (H sc fd Hs Hf) as (f & R & Lb & _ & _ & _ & Hp & _). exact (Hp Hc).
+Qed.
+
+(* the right-hand side of a dropped store, evaluated by the run that keeps it *)
+Lemma rhs_eval n e s :
+  rhs_ok c e = true -> fns_ok c (fns s) ->
+  exists r, eval (pb_of c) eps n e s = ([], r) /\ (tolX (d_calls c) r \/ exists v, r = Ok (v, s)).
+Proof.
+  unfold rhs_ok. intros H Hf. destruct (d_calls c) eqn:Ec.
+  - destruct (pfe_eval (pb_of c) eps (d_pt c) n e s H (fns_ok_pure _ Ec Hf)) as [r [E [[T|T]|Hv]]];
+      exists r; (split; [exact E|]); [left; left; exact T|left; right; split; [reflexivity|exact T]|right; exact Hv].
+  - destruct (pure_total_eval (pb_of c) eps n e s H) as [r [E [T|Hv]]];
+      exists r; (split; [exact E|]); [left; left; exact T|right; exact Hv].
+Qed.
+
+Lemma tolX_bind_nil {A B} X (f : A -> M B) r : tolX X r -> tolX X (snd (bindM ([], r) f)).
+Proof. intros T. apply (tolX_bind X ([], r) f). exact T. Qed.
+
+Lemma pruned_exec n ax L Ds t s1 s2 :
+  ds_wf Ds -> pruned_store_ok c Ds L t = true -> inv c ax L Ds s1 s2 ->
+  tolX (d_calls c) (snd (exec (pb_of c) eps n t s2)) \/
+  exists s2', exec (pb_of c) eps n t s2 = ([], Ok (FNormal, s2')) /\ inv c ax L Ds s1 s2'.
+Proof.
+  intros Hwf Hp Hi. destruct n as [|n]; [left; left; exact I|]. rewrite exec_S.
+  assert (Hf2 : fns_ok c (fns s2)) by (destruct Hi as (H1 & H2 & _); rewrite <- H1; exact H2).
   destruct t; cbn [pruned_store_ok] in Hp; try discriminate.
   - (* SMake: re-declaration in the scope that already holds the slot *)
     destruct l as [x|]; [|discriminate]. apply andb_prop in Hp. destruct Hp as [Hp Hpt].
     apply andb_prop in Hp. destruct Hp as [Hd Hl]. apply negb_true_iff in Hl. apply memz_nIn in Hl.
     apply memz_In in Hd. destruct Ds as [|D r]; [destruct Hd|]. cbn [hd] in Hd.
     cbn [exec_body].
-    destruct (pure_total_eval P eps n e s2 Hpt) as [rr [E [T|[v Ev]]]]; rewrite E.
-    + left. apply tolr_bind. exact T.
+    destruct (rhs_eval n e s2 Hpt Hf2) as [rr [E [T|[v Ev]]]]; rewrite E.
+    + left. apply tolX_bind_nil. exact T.
     + subst rr. rewrite bindM_ret_nil. right. eexists. split; [reflexivity|].
       pose proof Hi as (H1 & H2 & H3 & H4). unfold inv, with_env. cbn [env fns].
       refine (conj H1 (conj H2 (conj _ H4))). eapply define_dead; eauto.
@@ -1319,14 +1357,14 @@ Proof.
     destruct l as [x|]; [|discriminate]. apply andb_prop in Hp. destruct Hp as [Hp Hpt].
     apply andb_prop in Hp. destruct Hp as [Hd Hl]. apply negb_true_iff in Hl. apply memz_nIn in Hl.
     apply memz_In in Hd. cbn [exec_body].
-    destruct (pure_total_eval P eps n e s2 Hpt) as [rr [E [T|[v Ev]]]]; rewrite E.
-    + left. apply tolr_bind. exact T.
+    destruct (rhs_eval n e s2 Hpt Hf2) as [rr [E [T|[v Ev]]]]; rewrite E.
+    + left. apply tolX_bind_nil. exact T.
     + subst rr. rewrite bindM_ret_nil.
       destruct (assign_env (Some x) n0 v (env s2)) as [e'|] eqn:Ea.
       * right. eexists. split; [reflexivity|].
         pose proof Hi as (H1 & H2 & H3 & H4). unfold inv, with_env. cbn [env fns].
         refine (conj H1 (conj H2 (conj _ H4))). eapply assign_dead; eauto.
-      * left. exact I.
+      * left. left. exact I.
 Qed.
 
 (* ------------------------------------------------------------------------------------ *)
@@ -1366,7 +1404,7 @@ End Sim.
 Theorem ds_sound_ctx c prog eps fuel o e :
   ds_ok_ctx c prog = true ->
   run_impl (pb_of c) eps fuel prog = (o, e) ->
-  tol_ending e = false ->
+  tol_ending_x (d_calls c) e = false ->
   run_impl (d_pa c) eps fuel prog = (o, e).
 Proof.
   unfold ds_ok_ctx, tr_block. intros H Hrun Htol.
@@ -1385,20 +1423,34 @@ Proof.
   destruct (exec_block (pb_of c) eps fuel prog init_st) as [o2 r2].
   destruct (exec_block (d_pa c) eps fuel prog init_st) as [o1 r1].
   cbn [fst snd] in *. inversion Hrun; subst o e. clear Hrun.
-  destruct Hblk as [T|[Eo Hr]].
+  unfold tol_ending_x in Htol. apply orb_false_iff in Htol. destruct Htol as [Htol Hx].
+  destruct Hblk as [[T|[HX T]]|[Eo Hr]].
   - exfalso. destruct r2 as [a|er|p| |]; cbn in T, Htol; try contradiction; try discriminate.
     destruct p; try contradiction; discriminate.
+  - exfalso. rewrite HX in Hx. cbn [andb] in Hx.
+    destruct r2 as [a|er|p| |]; cbn in T, Hx; try contradiction. destruct p; try contradiction; discriminate.
   - cbn [fst snd] in Eo, Hr. rewrite Eo. destruct r1, r2; try contradiction; cbn [res_ending]; try reflexivity; congruence.
 Qed.
 
-(* the statement for the checker's own configuration *)
+(* the statement for the checker's own configuration; calls = false: exactly the round-2 theorem *)
 Theorem ds_sound prog ss fs acc eps fuel o e :
   ds_ok prog (Some (ss, fs)) acc = true ->
   run_impl (Some (filter (fun i => negb (memz i acc)) ss, fs)) eps fuel prog = (o, e) ->
   tol_ending e = false ->
   run_impl (Some (ss, fs)) eps fuel prog = (o, e).
 Proof.
-  intros H. exact (ds_sound_ctx (mk_ctx prog (Some (ss, fs)) acc) prog eps fuel o e H).
+  intros H R T. apply (ds_sound_ctx (mk_ctx prog (Some (ss, fs)) acc) prog eps fuel o e H R).
+  unfold tol_ending_x. cbn [d_calls mk_ctx mk_ctx_x andb]. rewrite T. reflexivity.
+Qed.
+
+(* round 4: right-hand sides may call pure, trap-free user functions *)
+Theorem ds_sound_x prog ss fs acc eps fuel o e :
+  ds_ok_x prog (Some (ss, fs)) acc = true ->
+  run_impl (Some (filter (fun i => negb (memz i acc)) ss, fs)) eps fuel prog = (o, e) ->
+  tol_ending_x true e = false ->
+  run_impl (Some (ss, fs)) eps fuel prog = (o, e).
+Proof.
+  intros H. exact (ds_sound_ctx (mk_ctx_x true prog (Some (ss, fs)) acc) prog eps fuel o e H).
 Qed.
 
 (* ------------------------------------------------------------------------------------ *)
@@ -1433,5 +1485,35 @@ Theorem prune_dead_stores_sound_lemma prog ss fs eps fuel o e :
   run_impl (Some (ss, fs)) eps fuel prog = (o, e).
 Proof.
   intros Hv Hd Hr Hrun Htol. apply plan_ok3_sound_lemma; try assumption.
+  rewrite Hr, empty_plan_is_none. exact Hrun.
+Qed.
+
+(* round 4: the same chain with the call-enabled liveness class *)
+Theorem plan_ok4_sound_lemma prog ss fs eps fuel o e :
+  v_checked (x_main (plan_ok4 prog ss fs)) = true ->
+  x_checked (plan_ok4 prog ss fs) = true ->
+  run_impl (Some (x_residual (plan_ok4 prog ss fs))) eps fuel prog = (o, e) ->
+  tol_ending_x true e = false ->
+  run_impl (Some (ss, fs)) eps fuel prog = (o, e).
+Proof.
+  unfold plan_ok4. cbv zeta. cbn [x_main x_checked x_residual].
+  set (v := plan_ok prog ss fs).
+  destruct (v_residual v) as [ss2 fs2] eqn:Ev. cbn [fst snd].
+  intros Hv Hd Hrun Htol.
+  assert (Ht : tol_ending e = false).
+  { unfold tol_ending_x in Htol. apply orb_false_iff in Htol. exact (proj1 Htol). }
+  apply (plan_ok_sound_lemma prog ss fs eps fuel o e Hv); [|exact Ht].
+  fold v. rewrite Ev. eapply ds_sound_x; eauto.
+Qed.
+
+Theorem prune_sound_five_classes_lemma prog ss fs eps fuel o e :
+  v_checked (x_main (plan_ok4 prog ss fs)) = true ->
+  x_checked (plan_ok4 prog ss fs) = true ->
+  x_residual (plan_ok4 prog ss fs) = ([], []) ->
+  run_impl None eps fuel prog = (o, e) ->
+  tol_ending_x true e = false ->
+  run_impl (Some (ss, fs)) eps fuel prog = (o, e).
+Proof.
+  intros Hv Hd Hr Hrun Htol. apply plan_ok4_sound_lemma; try assumption.
   rewrite Hr, empty_plan_is_none. exact Hrun.
 Qed.
